@@ -613,7 +613,7 @@ def run_check(pid, tier):
                         violations.append(({'property': pid, 'broken': 'property',
                                             'what': f"well-formed definition does not compile in configuration {f['config']}: " + '; '.join(f['errors'][:2]),
                                             'dsl': f['dsl'], 'feature': f['feature'], 'config': f['config']}, True))
-                if 'pos' in fams and t3r:
+                if ('pos' in fams or 'nostd' in fams) and t3r:
                     for f in t3r.get('compile_failures', []):
                         violations.append(({'property': pid, 'broken': 'property', 'what': 'well-formed definition does not compile: ' + f['stderr'][-400:],
                                             'dsl': f['dsl'], 'feature': f['feature']}, True))
